@@ -31,7 +31,7 @@ end
 
 def modelledPattern (p : Name) : Bool :=
   p.isEmpty ||
-  ((splitOnSlash p).all (fun s => !s.isEmpty && s != ['.'] && s != ['.', '.']) && (parseGlob (p.length + 1) p).isSome)
+  (cleanPat p && (parseGlob (p.length + 1) p).isSome)
 
 def insertSortedDedup (n : Name) : List Name → List Name
   | [] => [n]
